@@ -430,7 +430,10 @@ type c04state struct {
 func (s *c04state) check(scn string, q c04q, o c04obs) string {
 	switch {
 	case o.panicked != "":
-		s.res.ViolateInput("exec/panic", fmt.Sprintf("%s: query %v: %s", scn, q, o.panicked), c04pairJSON{A: q.json(), B: q.json()})
+		// a crash of the code under test is not what C04 is about: the check cannot decide
+		if s.res.Infra == "" {
+			s.res.Infra = fmt.Sprintf("%s: Cache.Exec panicked or failed on query %v: %s", scn, q, o.panicked)
+		}
 		return "panic"
 	case !o.hasResp:
 		return "no-response"
@@ -831,9 +834,9 @@ func TestVerifC04(t *testing.T) {
 			continue
 		}
 		res.Outcomes["key/collision-confirmed-through-Exec:"+k]++
-		res.ViolateInput("key/collision:"+k,
+		c04violate(res, p, "key/collision:"+k,
 			fmt.Sprintf("two different questions have the same cache key %q and share a cache entry (differing in: %s).\n%s\n%s",
-				keyer.key(p[0]), k, d1, d2), c04pairJSON{A: p[0].json(), B: p[1].json()})
+				keyer.key(p[0]), k, d1, d2))
 	}
 	kinds = kinds[:0]
 	for k := range s.foreign {
@@ -854,9 +857,9 @@ func TestVerifC04(t *testing.T) {
 		}
 		_, d1, _ := c04pairRun(p[0], p[1])
 		_, d2, _ := c04pairRun(p[1], p[0])
-		res.ViolateInput("exec/foreign-answer:"+k,
+		c04violate(res, p, "exec/foreign-answer:"+k,
 			fmt.Sprintf("a query was answered with the cached answer of a different question (differing in: %s): stored for %v, served to %v (keys %q / %q).\npair alone: %s\nreverse order: %s",
-				k, p[0], p[1], keyer.key(p[0]), keyer.key(p[1]), d1, d2), c04pairJSON{A: p[0].json(), B: p[1].json()})
+				k, p[0], p[1], keyer.key(p[0]), keyer.key(p[1]), d1, d2))
 	}
 	res.Sample(map[string]any{"question": c04q{N: 0, T: 1, C: 1, F: 0}.json(), "key_hex": hex.EncodeToString([]byte(keyer.key(c04q{N: 0, T: 1, C: 1, F: 0})))})
 	res.Sample(map[string]any{"question": c04q{N: 0, T: 257, C: 1, F: 0}.json(), "key_hex": hex.EncodeToString([]byte(keyer.key(c04q{N: 0, T: 257, C: 1, F: 0})))})
@@ -869,6 +872,28 @@ func TestVerifC04(t *testing.T) {
 	res.Write(e)
 	if len(overflow) > 0 {
 		t.Logf("table hash clashes resolved exactly: %d", len(overflow))
+	}
+}
+
+// c04violate records a violation; its cost makes the merge over shards keep the
+// simplest pair of a signature (shortest name, smallest type).
+func c04violate(res *vr.Result, p [2]c04q, sig, desc string) {
+	res.ViolateInput(sig, desc, c04pairJSON{A: p[0].json(), B: p[1].json()})
+	ord := func(t uint16) int { // enumeration order of types: 1,2,...,65535,0
+		if t == 0 {
+			return 65536
+		}
+		return int(t)
+	}
+	cost := ord(p[0].T)
+	if ord(p[1].T) < cost {
+		cost = ord(p[1].T)
+	}
+	cost += 1 + len(c04names[p[0].N].wire)*70000
+	for i := range res.Violations {
+		if res.Violations[i].Sig == sig && res.Violations[i].Cost == 0 {
+			res.Violations[i].Cost = cost
+		}
 	}
 }
 
